@@ -638,7 +638,7 @@ def _parse_expr(text):
     return None
 
 
-_NOPAREN = (ast.Starred, ast.Slice)
+_NOPAREN = (ast.Starred, ast.Slice, ast.FormattedValue)
 
 
 # ------------------------------------------------------------------------------------------ matching clauses
@@ -740,7 +740,8 @@ def check_matching(res, cx, p, rnd):
                     refmatch.ndump(got.body[0].value, False) == refmatch.ndump(nodes[0], False)
             else:
                 ok = refmatch.ndump(got.body, False) == refmatch.ndump(nodes, False)
-        if not ok and not bad_class and any(isinstance(m.get_ast(w), _NOPAREN) for w in pat.names):
+        if not ok and not bad_class and any(isinstance(m.get_ast(w), _NOPAREN) or _pykey(m.get_ast(w)) in cx.fstr_keys
+                                            for w in pat.names):
             # a slice / starred argument bound by a wildcard that stands in parentheses in the pattern: the
             # text cannot be substituted there; judge on the trees instead
             binds = {w: m.get_ast(w) for w in pat.names}
@@ -957,23 +958,36 @@ def causes_of(cx, pat, goal, goal_text, ref, full, strict, new_tree, expected):
         s, e = m.region
         sub = [x for x in ref if s <= x.region[0] and x.region[1] <= e]
         rw = refmatch.Rewriter(sub, goal)
+
+        def inst_text(x):
+            def one(mo):
+                b = x.first(mo.group(1))
+                return raw_of(offs.region(b), x if (x.kind == "expr" and b is x.nodes[0]) else None)
+            return refmatch.WILD_RE.sub(one, goal_text)
+
+        def raw_of(reg, exclude):
+            """text of a region in which the instances nested in it are replaced the way plain text
+            substitution does it (no parentheses added anywhere)"""
+            a, z = reg
+            inner = [x for x in sub if x is not exclude and x is not m and a <= x.region[0] and x.region[1] <= z]
+            outer = [x for x in inner if not any(y is not x and y.region != x.region and
+                                                 y.region[0] <= x.region[0] and x.region[1] <= y.region[1]
+                                                 for y in inner)]
+            pieces, pos = [], a
+            for x in sorted(outer, key=lambda x: x.region):
+                if x.region[0] < pos:
+                    continue
+                pieces += [src[pos:x.region[0]], inst_text(x)]
+                pos = x.region[1]
+            pieces.append(src[pos:z])
+            return "".join(pieces)
+
         texts, safe = {}, {}
         for w in goal.names:
             b = m.first(w)
-            bs, be = offs.region(b)
-            if any(x is not m and bs <= x.region[0] and x.region[1] <= be for x in sub):
-                nb = rw.rewrite(b, force=(m.kind == "expr" and b is m.nodes[0]))
-                try:
-                    texts[w] = ast.unparse(ast.fix_missing_locations(nb))
-                except Exception:  # noqa: BLE001
-                    texts[w] = offs.text(b)
-                if isinstance(nb, (ast.Tuple, ast.NamedExpr, ast.Yield, ast.YieldFrom, ast.GeneratorExp)) and \
-                        texts[w][:1] == "(" and offs.text(b)[:1] != "(":
-                    texts[w] = texts[w][1:-1]  # unparse adds these itself; rope's text would not have them
-                safe[w] = _wrap(nb, texts[w])
-            else:
-                texts[w] = offs.text(b)
-                safe[w] = _wrap(b, texts[w])
+            texts[w] = raw_of(offs.region(b), None)
+            is_inst = any(x is not m and x.kind == "expr" and x.nodes[0] is b for x in sub)
+            safe[w] = "(" + texts[w] + ")" if is_inst and not isinstance(b, _NOPAREN) else _wrap(b, texts[w])
         raw = refmatch.WILD_RE.sub(lambda mo: texts[mo.group(1)], goal_text)
         wrapped = refmatch.WILD_RE.sub(lambda mo: safe[mo.group(1)], goal_text)
         want = refmatch.ndump(rw.rewrite(cx.tree), flat)
@@ -1166,6 +1180,7 @@ def run_case(spec):
     cx.tree = ast.parse(src)
     cx.offs = refmatch.Offsets(src, cx.tree)
     cx.in_fstr = _inside_fstring(cx.tree)
+    cx.fstr_keys = {_pykey(n) for n in ast.walk(cx.tree) if id(n) in cx.in_fstr and hasattr(n, "lineno")}
     cx.elifs = _elif_nodes(cx)
     cx.in_returns = {id(d) for n in ast.walk(cx.tree) if isinstance(n, (ast.FunctionDef, ast.AsyncFunctionDef))
                      and n.returns is not None for d in ast.walk(n.returns)}
